@@ -307,6 +307,38 @@ func run(c *mon.Ctx) {
 		}
 		c.Class(fmt.Sprintf("streamtype/%02x", code))
 	})
+	// every result is a value of its own: all 256 are collected first (in a PRNG order), then checked side by side;
+	// the same for the streams of one PMT whose types come from anywhere in the code space
+	c.StreamSeedless("stream-types-kept-side-by-side", 8, func(k int, r *gen.Rand) {
+		perm := r.Perm(256)
+		var got [256]psi.PmtStreamType
+		for _, code := range perm {
+			got[code] = psi.LookupPmtStreamType(byte(code))
+		}
+		for code := range got {
+			checkStreamType(c, "LookupPmtStreamType (all 256 results collected before any is looked at)", byte(code), got[code])
+		}
+		p := ref.PMT{Program: 1, Version: 1, CurrentNext: true, PCRPID: 0x100}
+		n := 2 + r.Intn(40)
+		for j := 0; j < n; j++ {
+			p.Streams = append(p.Streams, ref.ES{Type: byte(perm[j]), PID: 0x100 + j})
+		}
+		pay := append([]byte{0}, p.Section()...)
+		m, err := psi.NewPMT(pay)
+		if err != nil || len(m.ElementaryStreams()) != n {
+			c.Fail("streamtype:pmt-setup", fmt.Sprintf("a %d-stream PMT was not decoded: %v", n, err), wit{Case: "pmt", Body: mon.Hex(pay)})
+			return
+		}
+		for j, es := range m.ElementaryStreams() {
+			checkStreamType(c, fmt.Sprintf("PMT.ElementaryStreams (stream %d of %d)", j, n), byte(perm[j]), es)
+			if g := m.IsPidForStreamWherePresentationLagsEbp(0x100 + j); g != lags(byte(perm[j])) {
+				c.Fail("streamtype:pmt-lags-by-pid", fmt.Sprintf("IsPidForStreamWherePresentationLagsEbp(pid of a stream_type %#02x stream, stream %d of %d) = %v", perm[j], j, n, g), wit{Case: "pmt", Body: mon.Hex(pay)})
+				break
+			}
+		}
+		c.Count("streamtype.results_kept_side_by_side")
+		c.Class("streamtype/side-by-side")
+	})
 	per := c.N(30, 50000)
 	c.Exhaustive("all 256 descriptor tags for the neutral-value checks", 256)
 	c.Stream("foreign-tags", 256, func(tag int, r *gen.Rand) {
